@@ -64,7 +64,7 @@ CHECKS = {
         ref="DESIGN.md section 5, C08"),
     "C02": dict(
         text="C02_decodes_iff: for every reachable decoder state with at least K ESIs and not all source symbols, the model returns Some exactly when the constraint matrix of the received set is injective over GF(256) (3b is the reference elimination, proved Some iff injective; 3a's rows are a sub-list of the full matrix's rows so its success implies the full system's, and its failure falls through: C02_fast_path_never_loses); C02_case1_not_injective (fewer than K symbols can never determine the block), C02_all_source_decodes, C02_monotone; panic-freedom of the rebuild for all K <= 56403. With C04_matrix_is_rfc the matrix is the RFC's. Tie: real SourceBlockDecoder fed one symbol at a time, Some/None at EVERY prefix vs the model (= rank oracle), oracle-guided generation of rank-deficient sets, overhead stream exercising the binary-only path at its own rank boundary, both profiles and back-ends.",
-        note="Trusted: Coq kernel; the five-phase solver of pi_solver.rs is itself modelled (Model/PiSolver.v: selection statistics, component graph, the five phases, both build variants incl. the errata-11 release shortcuts) and proved sound and complete (C02s_PS_sound: a returned operation list is a certificate; C02s_PS_complete: None iff the matrix is not injective; C02s_PS_first_phase_total: errata 2 as a theorem); its operation lists are compared TOKEN BY TOKEN with the real solver's on the dense back-end on every run (encoding systems and decoder systems incl. singular ones, both profiles). Left unproved: absence of panics in the component-graph bookkeeping of the model (PS_no_panic_partial; a panic yields no answer, so soundness is unaffected); the sparse back-end iterates in physical order and is tied through C16 + C07 + prefix-wise Some/None. Sampled K <= 40 quick / 120 thorough. No axioms.",
+        note="Trusted: Coq kernel; the five-phase solver of pi_solver.rs is itself modelled (Model/PiSolver.v: selection statistics, component graph, the five phases, both build variants incl. the errata-11 release shortcuts) and proved sound and complete (C02s_PS_sound: a returned operation list is a certificate; C02s_PS_complete: None iff the matrix is not injective; C02s_PS_first_phase_total: errata 2 as a theorem); its operation lists are compared TOKEN BY TOKEN with the real solver's on the dense back-end on every run (encoding systems and decoder systems incl. singular ones, both profiles). The model never panics (C02s_PS_total: component-graph bookkeeping, selection statistics and all debug-build *_verify assertions), so pi_solve = None <-> not injective holds outright (C02s_PS_complete_solve, C02s_PS_system_total for every generated system, K <= 56403); the sparse back-end iterates in physical order and is tied through C16 + C07 + prefix-wise Some/None. Sampled K <= 40 quick / 120 thorough. No axioms.",
         technique="Rocq proof (decode <-> injective; five-phase solver model proved sound and complete) + prefix-wise rank-oracle and exact op-list correspondence",
         ref="DESIGN.md section 5, C02"),
     "C01": dict(
